@@ -424,6 +424,31 @@ func (f *Facts) propagate(b *ssa.BasicBlock, cur *pstate, isBack func(u, v *ssa.
 					}
 					return
 				}
+				// an address-of / allocation compared with nil is never equal
+				{
+					x, y := resolve(cur, bo.X), resolve(cur, bo.Y)
+					if isNilConst(y) && addrNonNil(x) || isNilConst(x) && addrNonNil(y) {
+						if bo.Op == token.EQL {
+							push(b.Succs[1], cur.clone())
+							return
+						} else if bo.Op == token.NEQ {
+							push(b.Succs[0], cur.clone())
+							return
+						}
+					}
+				}
+				// nil compared with nil (an error variable that is the constant nil on this path)
+				if xk, okx := resolve(cur, bo.X).(*ssa.Const); okx && xk.Value == nil && isNillable(xk.Type()) {
+					if yk, oky := resolve(cur, bo.Y).(*ssa.Const); oky && yk.Value == nil && isNillable(yk.Type()) {
+						if bo.Op == token.EQL {
+							push(b.Succs[0], cur.clone())
+							return
+						} else if bo.Op == token.NEQ {
+							push(b.Succs[1], cur.clone())
+							return
+						}
+					}
+				}
 			}
 		}
 		for si, succ := range b.Succs {
@@ -442,6 +467,20 @@ func (f *Facts) propagate(b *ssa.BasicBlock, cur *pstate, isBack func(u, v *ssa.
 	case *ssa.Jump:
 		push(b.Succs[0], cur.clone())
 	}
+}
+
+func isNilConst(v ssa.Value) bool {
+	k, ok := v.(*ssa.Const)
+	return ok && k.Value == nil && isNillable(k.Type())
+}
+
+// addrNonNil: values that are never nil by construction (element/field addresses, allocations).
+func addrNonNil(v ssa.Value) bool {
+	switch v.(type) {
+	case *ssa.IndexAddr, *ssa.Alloc, *ssa.MakeSlice, *ssa.MakeMap, *ssa.MakeChan, *ssa.MakeClosure, *ssa.MakeInterface, *ssa.Function:
+		return true
+	}
+	return false
 }
 
 func (f *Facts) infeasible(s *pstate, cond ssa.Value, pol bool) bool {
@@ -583,6 +622,19 @@ func (f *Facts) AcceptingReturns(idx int, wantBool bool) []ReturnState {
 			}
 			if neverNilError(v) || sentinelError(v) {
 				continue
+			}
+			if arg := nilPreservedArg(v); arg != nil {
+				// return wrap(err): nil only when err is nil
+				a := resolve(s, arg)
+				if neverNilError(a) || sentinelError(a) {
+					continue
+				}
+				if _, isMI := a.(*ssa.MakeInterface); isMI {
+					continue
+				}
+				if at := f.tr.term(s, a, 0); s.lits[at+" != nil"] {
+					continue
+				}
 			}
 			if isBoolType(v.Type()) {
 				if f.infeasible(s, v, wantBool) {
@@ -1299,6 +1351,54 @@ func neverNilError(v ssa.Value) bool {
 		return true
 	}
 	return funcNeverNil(f, 0)
+}
+
+// nilPreservedArg: v is a call to a source function whose error result is nil only if one of its
+// error parameters is nil (every return yields that parameter or a constructed error); returns that argument.
+func nilPreservedArg(v ssa.Value) ssa.Value {
+	call, ok := v.(*ssa.Call)
+	if !ok {
+		return nil
+	}
+	f := call.Call.StaticCallee()
+	if f == nil || len(f.Blocks) == 0 || call.Call.IsInvoke() {
+		return nil
+	}
+	res := f.Signature.Results()
+	if res.Len() != 1 || !isErrorType(res.At(0).Type()) {
+		return nil
+	}
+	var par *ssa.Parameter
+	for _, b := range f.Blocks {
+		ret, isRet := b.Instrs[len(b.Instrs)-1].(*ssa.Return)
+		if !isRet {
+			continue
+		}
+		r := ret.Results[0]
+		if p, isP := r.(*ssa.Parameter); isP {
+			if par != nil && par != p {
+				return nil
+			}
+			par = p
+			continue
+		}
+		if _, isMI := r.(*ssa.MakeInterface); isMI {
+			continue
+		}
+		if neverNilError(r) || sentinelError(r) {
+			continue
+		}
+		return nil
+	}
+	if par == nil {
+		return nil
+	}
+	for i, p := range f.Params {
+		if p == par && i < len(call.Call.Args) {
+			return call.Call.Args[i]
+		}
+	}
+	return nil
 }
 
 var neverNilMemo = map[*ssa.Function]bool{}
